@@ -1218,6 +1218,12 @@ impl World {
     fn persist_recover(&mut self, doc: usize, ser: &str, with_queries: bool, fails: &mut Vec<Fail>, rep: &mut StepReport) {
         let expanded = self.real.docs[doc].expanded;
         let live = self.real.docs[doc].dom.clone();
+        if !self.model.has_document_element(doc) {
+            // DOM Level 1 allows removing the document element; what is left has no well-formed
+            // serialisation, and C15 (about the strings handed to the API) is not judged on it
+            rep.probes.push("persist_skipped_no_document_element");
+            return;
+        }
         let rec = match guarded(|| parse_doc(ser, expanded)) {
             Err(p) => {
                 fails.push(Fail::new("C15", "reparse-panic", format!("re-parsing the serialisation panicked: {} (text {:?})", p, ser)));
@@ -1250,7 +1256,10 @@ impl World {
         if self.successes >= 3 {
             rep.probes.push("recovered_after_3_edits");
         }
-        if with_queries {
+        if with_queries && !(expanded || self.model.text_normal(doc)) {
+            rep.probes.push("differential_queries_skipped_adjacent_or_empty_text");
+        }
+        if with_queries && (expanded || self.model.text_normal(doc)) {
             let ns = self.cfg.diff_ns.clone();
             for q in self.cfg.diff_pool.clone() {
                 let mut c1 = make_ctx(&ns);
